@@ -731,13 +731,38 @@ func stripOAIGenForRef(opts *FlattenOpts, k string, r *newRef) (bool, error) {
 func namePointers(opts *FlattenOpts) error {
 	debugLog("name pointers")
 
+	// Expanding a pointer in place may bring along another pointer, held by the expanded schema: iterate until no
+	// anonymous pointer remains. Unless pointers form a cycle, this takes at most one round per pointer found at first.
+	maxRounds := 0
+	for round := 0; ; round++ {
+		planned, err := namePointersOnce(opts)
+		if err != nil {
+			return err
+		}
+
+		if planned == 0 {
+			return nil
+		}
+
+		if round == 0 {
+			maxRounds = planned
+		}
+
+		if round > maxRounds {
+			return ErrCyclicPointers(round)
+		}
+	}
+}
+
+// namePointersOnce carries out one iteration of namePointers, and returns the number of pointers it has found to replace
+func namePointersOnce(opts *FlattenOpts) (int, error) {
 	refsToReplace := make(map[string]SchemaRef, len(opts.Spec.references.schemas))
 	for k, ref := range opts.Spec.references.allRefs {
 		debugLog("name pointers: %q => %#v", k, ref)
 		if path.Dir(ref.String()) == definitionsPath {
 			// this a ref to a top-level definition: ok, provided this definition exists
 			if _, _, err := ref.GetPointer().Get(opts.Swagger()); err != nil && !opts.ContinueOnError {
-				return ErrAtKey(k, err)
+				return 0, ErrAtKey(k, err)
 			}
 
 			continue
@@ -745,7 +770,7 @@ func namePointers(opts *FlattenOpts) error {
 
 		result, err := replace.DeepestRef(opts.Swagger(), opts.ExpandOpts(false), ref)
 		if err != nil {
-			return ErrAtKey(k, err)
+			return 0, ErrAtKey(k, err)
 		}
 
 		replacingRef := result.Ref
@@ -783,7 +808,7 @@ func namePointers(opts *FlattenOpts) error {
 		// update current replacement, which may have been updated by previous changes of deeper elements
 		result, erd := replace.DeepestRef(opts.Swagger(), opts.ExpandOpts(false), v.Ref)
 		if erd != nil {
-			return ErrAtKey(key, erd)
+			return 0, ErrAtKey(key, erd)
 		}
 
 		if opts.flattenContext != nil {
@@ -800,20 +825,20 @@ func namePointers(opts *FlattenOpts) error {
 
 			// if the schema is a $ref to a top level definition, just rewrite the pointer to this $ref
 			if err := replace.UpdateRef(opts.Swagger(), key, v.Ref); err != nil {
-				return err
+				return 0, err
 			}
 
 			continue
 		}
 
 		if err := flattenAnonPointer(key, v, refsToReplace, namer, opts); err != nil {
-			return err
+			return 0, err
 		}
 	}
 
 	opts.Spec.reload() // re-analyze
 
-	return nil
+	return len(refsToReplace), nil
 }
 
 func flattenAnonPointer(key string, v SchemaRef, refsToReplace map[string]SchemaRef, namer *InlineSchemaNamer, opts *FlattenOpts) error {
